@@ -676,7 +676,43 @@ def r17(ctx):
             ctx.ob('C09.R17', fn, nid, ok, 'reset of %s for part 0' % arr, '%s: %s' % (how, ok))
 
 
+def r18(ctx):
+    ctx.rule('C09.R18', 'a chain part without a written length has the length of the part before it (the first one 16): inside the '
+             'loop over the parts in Message::create the variable whose value is stored as the length of the part is written '
+             'only from the parsed ":len" text of that part; any other write inside the loop gives such a part a length of '
+             'its own, and prepareMasterPart / storeLastData then cut the data at other positions than the definition says',
+             minimum=1)
+    fb = ctx.fb
+    fn = fb.fn('ebusd::Message::create')
+    ctx.touch(fn)
+    loops = [l for l in fn.all('WhileStmt') if 'getline' in fn.key(fn.nodes[l].get('cond', -1))]
+    inloop = set()
+    for l in loops:
+        inloop |= set(fn.walk(l))
+    pushes = [c for c in fn.calls('push_back') if c in inloop and 'obj' in fn.nodes[c] and
+              'vector<unsigned long' in (fn.nodes[fn.strip(fn.nodes[c]['obj'])].get('t') or '') or
+              (c in inloop and 'obj' in fn.nodes[c] and 'ength' in fn.key(fn.nodes[c]['obj']))]
+    n = 0
+    for c in pushes:
+        lv = None
+        for x in fn.walk(fn.nodes[c]['args'][0]):
+            if fn.nodes[x]['k'] == 'DeclRefExpr' and fn.nodes[x].get('rk') == 'local':
+                lv = fn.nodes[x].get('decl')
+        if lv is None:
+            continue
+        writes = [(nid, rhs) for nid, d, rhs, op, lhs in fn.assignments() if d == lv and op != 'init' and nid in inloop]
+        for nid, rhs in writes:
+            n += 1
+            src = fn.nodes[fn.strip(rhs, casts=True)] if rhs is not None else {}
+            ok = (src.get('callee') or '').split('::')[-1] in ('parseInt', 'parseSignedInt', 'strtoul', 'stoul')
+            ctx.ob('C09.R18', fn, nid, ok, 'write of the part length %s in the loop over the parts' % lv.split(':')[-1],
+                   'taken from the parsed length of this part: %s' % ok)
+    if n < 1:
+        raise AnalysisBroken('C09.R18: the length of a chain part in Message::create was not recognised')
+
+
 def run(ctx):
+    r18(ctx)
     r16(ctx)
     r17(ctx)
     r15(ctx)
